@@ -67,6 +67,18 @@ def cases(ctx):
         for c in emit(d, 'two-exposures'):
             c['nsamples'] = n
             yield c
+    # a quoted sample name WITHOUT preceding metadata starts the unknown family of that name: first line of the document,
+    # or after a family of any type (before fixes/C04-om-implicit-family-name.diff the family was named by unquoting the
+    # sample's name a second time, and its exposition was rejected with a name clash)
+    for i in range(ctx.n(160, 1200)):
+        g = omgen.Gen(rng, nh=False, rich=True)
+        g.used = set()
+        fams = [g.family('untyped-sample')]
+        if i % 3 == 1:
+            fams.insert(0, g.family())
+        elif i % 3 == 2:
+            fams.append(g.family())
+        yield from emit(omgen.render(omgen.Doc(fams)), 'implicit')
     for i in range(ctx.n(900, 6000)):
         g = omgen.Gen(rng, nh=False, rich=(i % 5 != 0))
         sdoc = g.doc()
@@ -98,6 +110,9 @@ ROUNDTRIP_DOCS = [
     '# TYPE a counter\na_total 1 # {"a b\\"c"="x"} 1 -2.25\n# EOF\n',
     '# TYPE a_u gauge\n# UNIT a_u u\n# HELP a_u \\\\n \\" \\q\na_u{x="\\\\\\"\\n"} 1\n# EOF\n',
     '# TYPE "a\\nb" gauge\n{"a\\nb"} 1\n# EOF\n',
+    # implicit unknown family named by its sample (more of them in omgen.REGRESSION_DOCS)
+    '{" a"} 1\n# EOF\n', '{"a "} 1\n# EOF\n', '{" a_total"} 1\n# EOF\n', '{"\\"a\\""} 1\n# EOF\n',
+    '{"\ta",x="y"} 1 1.5\n{"\ta",x="y"} 2 2.5\n# EOF\n', '{"a\\nb"} 1\n{" a\\nb"} 1\n# EOF\n',
 ]
 
 
